@@ -12,6 +12,7 @@ pub mod refscheme;
 pub mod report;
 pub mod rng;
 pub mod sandbox;
+pub mod synrules;
 
 #[derive(Clone, Copy, Debug, Eq, PartialEq)]
 pub enum Tier {
